@@ -227,8 +227,10 @@ fn scan(s: &[u8], mut pos: usize, mut cur: String, mut seps: usize, rel: bool, g
             if c == b'/' && cur.len() == seps {
                 seps += 1;
             }
-            cur.push(c as char);
-            pos += 1;
+            // copy one whole UTF-8 character ('$' and '/' are ASCII, so boundaries are safe)
+            let ch = std::str::from_utf8(&s[pos..]).ok().and_then(|x| x.chars().next()).unwrap_or('?');
+            cur.push(ch);
+            pos += ch.len_utf8();
             continue;
         }
         if s.get(pos + 1) == Some(&b'{') {
@@ -274,6 +276,11 @@ fn scan(s: &[u8], mut pos: usize, mut cur: String, mut seps: usize, rel: bool, g
                 Some(v) => cur.push_str(&v),
             }
             pos = en;
+            if pos < s.len() && !matches!(s[pos], b'/' | b'$' | b'}') {
+                // "$NAME.txt": where the name ends is not defined by the statement (shell reading:
+                // at the first non-name character; another reading: at the next '$', '}' or '/')
+                acc.may_fail("variable-name-termination(ambiguous)");
+            }
             if s.get(pos) == Some(&b'}') {
                 // "$NAME}": fail / keep the brace as text / swallow the brace
                 acc.may_fail("stray-closing-brace(ambiguous)");
